@@ -64,6 +64,7 @@ def route_instances():
         out.append(('mps-media', f'/mps/{mode}/testmps/{"9" * 22}/bbb_v7/2.m4v'))
     out += [('media', LIVE_SEG), ('media', VOD_ENC_SEG), ('media', f'/dash/live/bbb/bbb_a1/20.m4a?{LIVE_START}'),
             ('media', f'/dash/live/bbb/bbb_v7_enc/20.m4v?drm=playready&{LIVE_START}')]
+    out += [('patch', f'/patch/bbb/hand_made/{v}') for v in ('0', '1', '2147483648', '4294967296', '253402300800', '9' * 20)]
     out += [('patch', '/patch/bbb/hand_made/1709294400'), ('patch', '/patch/bbb/manifest_e/1709294400'),
             ('patch', '/patch/synempty/hand_made/1'), ('mps', '/mps/live/testmps/hand_made.mpd'),
             ('mps', '/mps/vod/testmps/hand_made.mpd'), ('mps', '/mps/vod/nosuch/hand_made.mpd'),
@@ -253,6 +254,28 @@ def header_item(arg):
     return acc
 
 
+def header_option_item(arg):
+    """A request header together with one option: every header of the list x every registered option (its first two
+    choices, or a plain value) on the manifest routes - the header changes how URLs are written (scheme, origin), the
+    option what is written."""
+    path, names, tier = arg
+    w = W.World.shared(extras=True)
+    w.begin_item()
+    acc = core.Acc()
+    W.set_now(NOW)
+    for name in names:
+        vals = [v for v in choice_variants(name) if v == v.strip() and v.lower() == v][:3] or ['1']
+        for v in vals[:(2 if tier == 'quick' else 3)]:
+            url = with_query(path, {name: v})
+            for h in HEADERS:
+                if 'Range' in h or 'Content-Type' in h:
+                    continue
+                r = w.get(url, headers=h)
+                acc.state((url, tuple(h.items())))
+                judge(acc, 'manifest', url, h, r, {'kind': 'hostile', 'rkind': 'manifest', 'url': url, 'option': name, 'headers': h})
+    return acc
+
+
 def body_item(arg):
     """Type-confused JSON bodies on the JSON endpoints (anonymous and as media)."""
     tier = arg
@@ -432,6 +455,8 @@ def _dispatch(item):
         return body_item(arg)
     if kind == 'census':
         return census_item(arg)
+    if kind == 'header-option':
+        return header_option_item(arg)
     if kind.startswith('mp4'):
         from props import c16_mp4
         return c16_mp4.dispatch(kind, arg)
@@ -467,10 +492,14 @@ def run(ctx):
     for ch in core.chunks(routes if not ctx.quick else routes[::3], 6):
         items.append(('header', (ch, ctx.tier)))
     items.append(('body', ctx.tier))
+    for path in ('/dash/live/bbb/hand_made.mpd', '/dash/vod/bbb/hand_made.mpd', '/mps/live/testmps/hand_made.mpd',
+                 '/dash/live/bbb/manifest_e.mpd'):
+        for ch in core.chunks(names, 8):
+            items.append(('header-option', (path, ch, ctx.tier)))
     with w0.appctx():
-        names = sorted(s_.directory for s_ in w0.models.Stream.all())
+        stream_dirs = sorted(s_.directory for s_ in w0.models.Stream.all())
         w0.models.db.session.remove()
-    for nm_ in names:
+    for nm_ in stream_dirs:
         items.append(('census', nm_))
     for stream in ('bbb', 'tears'):
         for addressing in ('number', 'time'):
